@@ -43,11 +43,11 @@ ASSUMPTIONS = ["X25519, HMAC and HKDF in ipv8_rust_tunnels are trusted",
                "anyone else accepted keys)"]
 REACH = ["hop_appended_honest", "keys_equal_checked", "retry_happened", "answer_ignored_by_originator", "dup_answer", "fault:flip_key",
          "fault:flip_auth", "fault:flip_ident", "fault:flip_cid", "fault:flip_cand", "fault:swap_ident", "fault:swap_cid", "fault:swap_cid_exit",
-         "fault:replay_old", "fault:subst_key", "crafted_answer_rejected", "subst_accepted_but_underivable", "hops:3",
+         "fault:replay_old", "fault:subst_key", "fault:subst_key_nocand", "crafted_answer_rejected", "subst_accepted_but_underivable", "hops:3",
          "extend_waits_for_peer_lookup", "join_policy_suspended"]
 
 KINDS = ["flip_key", "flip_auth", "flip_ident", "flip_cid", "flip_cand", "swap_ident", "swap_cid", "swap_cid_exit", "replay_old",
-         "subst_key", "dup_answer"]
+         "subst_key", "subst_key_nocand", "dup_answer"]
 
 
 def cases(tier: str, base_seed: int):  # noqa: ANN201
@@ -217,10 +217,19 @@ def execute(case: dict) -> dict:  # noqa: C901, PLR0915
                       f"circuit {self.circuit_id} hop {idx + 1}: appended {hop.public_key_bin.hex()[-12:]}, selected {sel.hex()[-12:]}")
         node, entry, why = trace(self, idx)
         adv = tw.nodes[1]
-        if "subst_key" in kinds:
+        if "subst_key" in kinds or "subst_key_nocand" in kinds:
             # (3) accepted keys must not be derivable by the adversary, unless the adversary is the selected peer
             if node is not None and node.name == adv.name and who == "node":
                 return
+            if idx < self.goal_hops - 1:
+                # a NON-final hop also has to prove that it holds the session keys (the candidate list it sends is encrypted with
+                # them): an answer with a substituted ephemeral key cannot, so it must have been rejected
+                holder = tw.node_of_key(hop.public_key_bin)
+                entries = [] if holder is None else list(holder.ov.exit_sockets.values()) + list(holder.ov.relay_from_to.values())
+                if not any(kbytes(e.hop.keys) == kbytes(hop.keys) for e in entries):
+                    c.violate("manipulated_answer", "accepted_hop_keys_not_held_by_selected_peer:subst_key",
+                              f"hop {idx + 1} of {self.goal_hops} of circuit {self.circuit_id} accepted from an answer with a substituted "
+                              f"ephemeral key: the selected peer {holder.name if holder else None} holds no entry with these session keys")
             mine = kbytes(hop.keys)
             for eph, opub in adv_secrets:
                 try:
@@ -347,7 +356,7 @@ def execute(case: dict) -> dict:  # noqa: C901, PLR0915
                         craft_now[0] = None
                         return inner(target_addr, payload)
                     payload.identifier, payload.key, payload.auth, payload.candidates_enc = prev
-                elif kind == "subst_key":
+                elif kind in ("subst_key", "subst_key_nocand"):
                     opub = seen_dh.get(payload.circuit_id)
                     if opub is None:
                         # relay role: the originator's ephemeral public value travelled in the extend we handled
@@ -363,6 +372,8 @@ def execute(case: dict) -> dict:  # noqa: C901, PLR0915
                     payload.key = eph.get_crypt_pk()
                     payload.auth = crypto_auth(s1[:32], payload.key)
                     adv_secrets.append((eph, opub))
+                    if kind == "subst_key_nocand":
+                        payload.candidates_enc = b""
                 return inner(target_addr, payload)
             finally:
                 craft_now[0] = None
@@ -459,7 +470,7 @@ def execute(case: dict) -> dict:  # noqa: C901, PLR0915
             if prev is None:
                 return None
             ident, key, auth, cand = prev
-        elif kind == "subst_key":
+        elif kind in ("subst_key", "subst_key_nocand"):
             opub = wire_dh.get(cid)
             if opub is None:
                 return None
@@ -469,6 +480,8 @@ def execute(case: dict) -> dict:  # noqa: C901, PLR0915
             key = eph.get_crypt_pk()
             auth = crypto_auth(s1[:32], key)
             adv_secrets.append((eph, opub))
+            if kind == "subst_key_nocand":
+                cand = b""
         crafted[pkt.id] = kind
         body = b"\x03" + struct.pack(">H", ident) + struct.pack(">H", len(key)) + key + auth + cand
         out = pkt.data[:23] + struct.pack("!I", ncid) + pkt.data[27:29] + body
